@@ -19,14 +19,18 @@ CHECKS = {
         "assumptions": [],
         "deadline": {"quick": 240, "thorough": 2400},
         "stages": [
-            {"name": "landscape", "harness": "c13_tuner", "args": ["--stage", "landscape"], "share": 0.5,
+            {"name": "landscape", "harness": "c13_tuner", "args": ["--stage", "landscape"], "share": 0.2,
              "what": "grid-only, no repeats, <= max_evals + 3^d, sorted steps, first = minimum, steps = evaluations"},
             {"name": "nonfinite", "harness": "c13_tuner", "args": ["--stage", "nonfinite"], "share": 0.1,
              "what": "a NaN/+inf/-inf answer at every evaluation position must make optimize() throw"},
             {"name": "tune-sched", "harness": "c13_tune_sched", "crash_is_violation": True, "args_quick": ["--budget", "2"], "share": 0.4,
-             "args_thorough": ["--budget", "2", "--maxfolds", "3", "--maxW", "3"],
+             "args_thorough": ["--budget", "2", "--maxfolds", "3", "--maxW", "2"],
              "what": "ml::tune with a W-worker pool: callback exactly once per (trial, fold) with the fold's indices, "
                      "statistics/extra stored under the right (trial, fold), optimum trial, schedule-independent result"},
+            {"name": "tune-sched-w3", "harness": "c13_tune_sched", "crash_is_violation": True, "tiers": ["thorough"], "share": 0.3,
+             "args": ["--budget", "1", "--maxfolds", "3", "--maxW", "3"],
+             "what": "the same with up to 3 workers and 1 preemption (3 workers x 2 preemptions did not complete within the "
+                     "deadline and is not claimed)"},
         ],
     },
 }
